@@ -224,14 +224,14 @@ theorem storeR_apply {input : List Scaffold} (hwf : WFInput input) (hnn : InputN
   obtain ⟨_, _, o', hdisc, hset⟩ := apply_only_touches happ
   rw [hgetRes] at hdisc
   rw [hgetD] at hset
-  obtain ⟨sc, o0, hsc, hname, hlook, hK, hG⟩ := hS r (List.mem_of_getElem? hr)
+  obtain ⟨sc, o0, hsc, hname, hlook, hK, hG, hSf⟩ := hS r (List.mem_of_getElem? hr)
   have hlen := hnn sc hsc
   -- the sticking-out fact for guard (a)
   have hother := other_holder hwf hm hF hp
   have hgeo2 : ∀ s' r', s' ≠ p.sid → store[s']? = some r' → Row.frag p.fragment ∈ r'.o.rows →
       Row.frag p.fragment ∈ r.o.rows → RGeo sc.rows r'.o ∧ r.o.bait.name = r'.o.bait.name ∧ FragDisjoint r.o.bait r'.o.bait := by
     intro s' r' hne hs' hm' hmr
-    obtain ⟨sc', o0', hsc', hname', _, _, hG'⟩ := hS r' (List.mem_of_getElem? hs')
+    obtain ⟨sc', o0', hsc', hname', _, _, hG', _⟩ := hS r' (List.mem_of_getElem? hs')
     obtain ⟨A, B, hsl, _⟩ := hG.slice
     obtain ⟨A', B', hsl', _⟩ := hG'.slice
     have hf1 : Row.frag p.fragment ∈ sc.rows := by rw [hsl]; simp [hmr]
@@ -255,7 +255,14 @@ theorem storeR_apply {input : List Scaffold} (hwf : WFInput input) (hnn : InputN
         · obtain ⟨_, a, ha, hgt, _⟩ := improves_guard himp
           simp only [Premise.overhangIfApplied, hkind, hgetRes] at ha
           exact kinv_startB hlen hK ha hgt hdisc
-      refine ⟨⟨sc, o0, hsc, by rw [hb]; exact hname, by rw [hb]; exact hlook, ?_, hG.discardStart hdisc⟩, hb⟩
+      have hS' : SafeKept sc.rows err (3 * err) o' := by
+        rcases hg with ⟨ov, hov, hlt⟩ | himp
+        · simp only [Premise.baitOverlap, hkind, hgetRes] at hov
+          exact safeKept_discardStart hlen hG hSf hdisc (Or.inl ⟨ov, hov, hlt⟩)
+        · obtain ⟨_, a, ha, hgt, _⟩ := improves_guard himp
+          simp only [Premise.overhangIfApplied, hkind, hgetRes] at ha
+          exact safeKept_discardStart hlen hG hSf hdisc (Or.inr (startB_bound ha hgt hdisc))
+      refine ⟨⟨sc, o0, hsc, by rw [hb]; exact hname, by rw [hb]; exact hlook, ?_, hG.discardStart hdisc, hS'⟩, hb⟩
       rw [hb]; exact hK'
     | stop =>
       rw [hkind] at hk hdisc
@@ -271,7 +278,14 @@ theorem storeR_apply {input : List Scaffold} (hwf : WFInput input) (hnn : InputN
         · obtain ⟨_, a, ha, hgt, _⟩ := improves_guard himp
           simp only [Premise.overhangIfApplied, hkind, hgetRes] at ha
           exact kinv_endB hlen hK ha hgt hdisc
-      refine ⟨⟨sc, o0, hsc, by rw [hb]; exact hname, by rw [hb]; exact hlook, ?_, hG.discardEnd hdisc⟩, hb⟩
+      have hS' : SafeKept sc.rows err (3 * err) o' := by
+        rcases hg with ⟨ov, hov, hlt⟩ | himp
+        · simp only [Premise.baitOverlap, hkind, hgetRes] at hov
+          exact safeKept_discardEnd hlen hK.inv hG hSf hdisc (Or.inl ⟨ov, hov, hlt⟩)
+        · obtain ⟨_, a, ha, hgt, _⟩ := improves_guard himp
+          simp only [Premise.overhangIfApplied, hkind, hgetRes] at ha
+          exact safeKept_discardEnd hlen hK.inv hG hSf hdisc (Or.inr (endB_bound ha hgt hdisc))
+      refine ⟨⟨sc, o0, hsc, by rw [hb]; exact hname, by rw [hb]; exact hlook, ?_, hG.discardEnd hdisc, hS'⟩, hb⟩
       rw [hb]; exact hK'
   obtain ⟨hnew, hb⟩ := key
   subst hset
